@@ -85,6 +85,8 @@ func sType(shape []sField) reflect.Type {
 			sf.Type = tArr
 		case "pint":
 			sf.Type = tPInt
+		case "parr":
+			sf.Type = reflect.TypeOf([2]*int{})
 		case "dash":
 			sf.Type = tInt
 			sf.Tag = `dials:"-"`
@@ -146,6 +148,19 @@ func sLeaf(kind string, id, idx int) reflect.Value {
 			}
 			*p = n
 			return reflect.ValueOf(p)
+		case "parr":
+			var a [2]*int
+			for j := range a {
+				kk := arenaKey{kind, id, idx*2 + j}
+				p, ok := arenaInts[kk]
+				if !ok {
+					p = new(int)
+					arenaInts[kk] = p
+				}
+				*p = n + j
+				a[j] = p
+			}
+			return reflect.ValueOf(a)
 		case "map", "dashref":
 			m, ok := arenaMaps[k]
 			if !ok {
@@ -185,6 +200,9 @@ func sLeaf(kind string, id, idx int) reflect.Value {
 	case "pint":
 		v := n
 		return reflect.ValueOf(&v)
+	case "parr":
+		v, w := n, n+1
+		return reflect.ValueOf([2]*int{&v, &w})
 	}
 	panic("harness: no leaf value for " + kind)
 }
